@@ -85,7 +85,10 @@ def build(ast):
         return leaves()[ast[1]]
     if ast[0] == "I":
         return T.InverseTransform(build(ast[1]))
-    return T.CompositeTransform([build(c) for c in ast[1]])
+    parts = [build(c) for c in ast[1]]
+    # the constructor takes any iterable of transforms: one part comes as a one-shot generator, two as a tuple, three as a list
+    container = (p for p in parts) if len(parts) == 1 else (tuple(parts) if len(parts) == 2 else parts)
+    return T.CompositeTransform(container)
 
 
 def interp(ast, x, inverse):
